@@ -890,3 +890,47 @@ Section Coherence.
     intros H. apply (run_coherent_from [] init_state cs (Inv_init [])). rewrite app_nil_r. exact H.
   Qed.
 End Coherence.
+
+(* ------------------------------------------------------------------ the per-file reading of Spec/Versioned.v *)
+Lemma target_of_bounded B files x :
+  bounded_store B files = true -> bounded B x = true -> bounded B (target_of files x) = true.
+Proof.
+  intros Hf Hx. unfold target_of. destruct (ref_of x) as [f|]; [|exact Hx].
+  destruct (assoc f files) as [c|] eqn:E; [eapply bounded_assoc; eassumption|exact Hx].
+Qed.
+
+Lemma available_param B files v1 v2 x :
+  has_defaults B -> vsame B v1 v2 -> bounded_store B files = true -> bounded B x = true ->
+  available files v1 x = available files v2 x.
+Proof.
+  intros HD Hv Hf Hx. unfold available. apply (in_range_param B v1 v2 _ HD Hv).
+  apply target_of_bounded; assumption.
+Qed.
+
+Lemma lprune_param B files v1 v2 :
+  has_defaults B -> vsame B v1 v2 -> bounded_store B files = true ->
+  forall j, bounded B j = true -> lprune files v1 j = lprune files v2 j.
+Proof.
+  intros HD Hv Hf j. induction j as [| | | | |l IH|l IH] using json_ind'; intros Hb; try reflexivity.
+  cbn [lprune]. destruct (ref_of (JObj l)); [reflexivity|]. f_equal.
+  apply (proj1 (bounded_obj_items _ _)) in Hb. destruct Hb as [_ Hb].
+  induction IH as [|[k x] l' Hx _ IHl]; [reflexivity|].
+  cbn [forallb snd] in Hb, Hx. rewrite andb_true_iff in Hb. destruct Hb as [Hb1 Hb2].
+  pose proof (target_of_bounded B files x Hf Hb1) as Ht.
+  rewrite (IHl Hb2).
+  destruct (target_of files x) as [| | | | |ms|o] eqn:Et; try reflexivity.
+  - f_equal. f_equal. f_equal. apply filter_ext_in. intros m Hm. f_equal.
+    apply (proj1 (bounded_arr_items _ _)) in Ht. rewrite forallb_forall in Ht.
+    apply (available_param B files v1 v2 m HD Hv Hf (Ht m Hm)).
+  - rewrite (available_param B files v1 v2 x HD Hv Hf Hb1), (Hx Hb1). reflexivity.
+Qed.
+
+Lemma pruned_store_param B files v1 v2 props fuel :
+  has_defaults B -> vsame B v1 v2 -> bounded_store B files = true ->
+  pruned_store files v1 props fuel = pruned_store files v2 props fuel.
+Proof.
+  intros HD Hv Hf. unfold pruned_store. apply map_ext_in. intros [f c] Hin. cbn [fst snd].
+  destruct (mem_str f (reach files fuel (dict_refs props) [])); [|reflexivity].
+  f_equal. apply (lprune_param B files v1 v2 HD Hv Hf).
+  unfold bounded_store in Hf. rewrite forallb_forall in Hf. exact (Hf _ Hin).
+Qed.
